@@ -150,6 +150,7 @@ def direct_cases(ctx, tab):
                 lines.append("c04 %s %d %d %d %s %s" % (sat, chan, year, jday, corr, ",".join(str(k) for k in range(0, 1024, 1))))
                 pend.append((g, payload))
                 ctx.case((sat, chan, year, jday, corr), nontrivial=True, branch="direct/%s" % ("dual" if cal.gain_switch is not None and not np.isnan(cal.gain_switch).all() else "single"))
+    custom_cases(ctx, tab)
     if not ctx.driver_ok:
         ctx.corr_break("lean driver unavailable: correspondence not run")
         return
@@ -164,6 +165,57 @@ def direct_cases(ctx, tab):
         gf = np.where(np.isnan(g), 0.0, g)
         if not np.array_equal(m_nan, np.isnan(g)) or np.any(np.abs(gf - m) > 1e-9 * np.maximum(1.0, np.abs(m))):
             ctx.corr_break("model and implementation differ for %s" % (payload,), payload)
+
+
+def custom_cases(ctx, tab):
+    """The same formula with CUSTOM solar coefficients (the `custom_coeffs` / coefficient-file option): slopes with four or
+    five decimals, so that the documented 3-decimal rounding of gain * S0 matters, for single- and dual-gain spacecraft.
+    Judged by the property's oracle on the merged table; no model line (the driver's table is the shipped one)."""
+    from pygac.calibration.noaa import Calibrator, calibrate_solar
+    import warnings
+    rng = ctx.rng
+    counts = np.arange(1024, dtype=float)
+    for sat in sorted(tab):
+        if rng.random() < (0.5 if not ctx.thorough else 1.0):
+            continue
+        _, launch = launch_float(tab[sat]["date_of_launch"])
+        year, jday = date_grid(rng, launch, False)[rng.randrange(4)]
+        single = all(tab[sat][c]["gain_switch"] is None for c in ("channel_1", "channel_2", "channel_3a"))
+        custom, merged = {}, dict(tab[sat])
+        for ci, ch in enumerate(("channel_1", "channel_2", "channel_3a")):
+            gains = (Fraction(1),) if single else ((Fraction(1, 4), Fraction(7, 4)) if ci == 2 else (Fraction(1, 2), Fraction(3, 2)))
+            while True:
+                s0 = "0.%05d" % rng.randint(5000, 30000)
+                if all((g * Fraction(s0) * 1000) % 1 != Fraction(1, 2) for g in gains):
+                    break
+            ent = {"dark_count": "%d.%d" % (rng.randint(30, 45), rng.randint(0, 9)), "s0": s0,
+                   "s1": "%.3f" % rng.uniform(-1, 3), "s2": "%.4f" % rng.uniform(-0.2, 0.2),
+                   "gain_switch": None if single else "%d.%d" % (rng.randint(480, 520), rng.randint(0, 9))}
+            merged[ch] = ent
+            custom[ch] = {k: (None if v is None else float(v)) for k, v in ent.items()}
+        cal = Calibrator(sat, custom_coeffs=custom)
+        arr = np.repeat(counts[:, None, None], 3, axis=2).copy()
+        with warnings.catch_warnings():
+            warnings.simplefilter("ignore")
+            got = calibrate_solar(arr, np.arange(3), year, jday, cal, 1.0)
+        for chan in range(3):
+            g = got[:, 0, chan]
+            want, t = oracle(merged, chan, year, jday, Fraction(1), range(1024))
+            payload = {"sat": sat, "chan": chan, "year": year, "jday": jday, "corr": "1", "custom": custom}
+            nan_w = np.array([w is None for w in want])
+            wf = np.array([0.0 if w is None else float(w) for w in want])
+            gf = np.where(np.isnan(g), 0.0, g)
+            # a count within 1e-9 of the dark count may fall either side of zero
+            edge = np.abs(wf) < 1e-9
+            bad = np.nonzero(((np.isnan(g) != nan_w) & ~edge) | (np.abs(gf - wf) > 1e-9 * np.maximum(1.0, np.abs(wf))))[0]
+            if len(bad):
+                i = int(bad[0])
+                ctx.violation("%s channel index %d with custom coefficients %s, %d/%03d: count %d -> %s, PATMOS-x formula gives %s" % (
+                    sat, chan, merged[("channel_1", "channel_2", "channel_3a")[chan]], year, jday, i, g[i],
+                    None if want[i] is None else float(want[i])), payload, cls="solar-custom")
+            ctx.case((sat, chan, year, jday, "custom", custom[("channel_1", "channel_2", "channel_3a")[chan]]["s0"]), nontrivial=True,
+                     branch="custom/%s" % ("single" if single else "dual"))
+        Calibrator(sat)       # back to the defaults for whoever comes next
 
 
 def distance_cases(ctx):
